@@ -34,7 +34,11 @@ type MixTrace struct {
 	Left   int           `json:"left"` // reassembly entries left after the transfer timeout
 }
 
-func RunMix(tokA, tokB []byte, nb int, order []int) MixTrace {
+func RunMix(tokA, tokB []byte, nb int, order []int) MixTrace { return RunMixSB(tokA, tokB, nb, order, 16) }
+
+// RunMixSB: the same with senders that keep their own block size sb (64: larger than the receiver's maximum of 16 - a foreign
+// peer that does not adopt the size the receiver answers with); the bodies still have 16*nb bytes
+func RunMixSB(tokA, tokB []byte, nb int, order []int, sb int) MixTrace {
 	tr := MixTrace{Op: "mix", Tokens: [][]int{toInts(tokA), toInts(tokB)}, NB: nb, Order: order, Codes: []int{}, App: []MixDelivery{}}
 	pl := pool.New(64, 2048)
 	cc := &fakeCC{p: pl}
@@ -72,9 +76,13 @@ func RunMix(tokA, tokB []byte, nb int, order []int) MixTrace {
 			r.SetToken(toks[who])
 			r.MustSetPath("/res")
 			r.SetContentFormat(message.AppOctets)
-			v, _ := blockwise.EncodeBlockOption(blockwise.SZX16, int64(num), num < nb-1)
+			szx := blockwise.SZX16
+			if sb == 64 {
+				szx = blockwise.SZX64
+			}
+			v, _ := blockwise.EncodeBlockOption(szx, int64(num), num < 16*nb/sb-1)
 			r.SetOptionUint32(message.Block1, v)
-			r.SetBody(bytes.NewReader(bodies[who][16*num : 16*num+16]))
+			r.SetBody(bytes.NewReader(bodies[who][sb*num : sb*num+sb]))
 			resp := cc.AcquireMessage(ctx)
 			resp.SetToken(r.Token())
 			rw := responsewriter.New(resp, cc, r.Options()...)
